@@ -1,0 +1,63 @@
+// Copyright ©2011-2012 The bíogo Authors. All rights reserved.
+// Use of this source code is governed by a BSD-style
+// license that can be found in the LICENSE file.
+
+//go:build verif
+// +build verif
+
+package morass
+
+import "os"
+
+// VerifStep, when set by a verification harness before a Morass is used,
+// is called at the named steps of Push, write, Finalise and Pull. It may
+// block, which lets the harness choose the interleaving of the caller
+// and the background writers.
+var VerifStep func(m *Morass, site string, i int)
+
+func vstep(m *Morass, site string, i int) {
+	if f := VerifStep; f != nil {
+		f(m, site, i)
+	}
+}
+
+// VerifView is a projection of the internal state of m used for
+// conformance checking against the TLA+ model of the sorter.
+type VerifView struct {
+	Fast     bool
+	ChunkNil bool
+	ChunkLen int
+	NFiles   int
+	Pool     int
+	Err      bool
+}
+
+// VerifView returns the current projection of m. It must only be
+// called when no background writer is running.
+func (m *Morass) VerifView() VerifView {
+	m.filesLock.Lock()
+	n := len(m.files)
+	m.filesLock.Unlock()
+	return VerifView{
+		Fast:     m.fast,
+		ChunkNil: m.chunk == nil,
+		ChunkLen: len(m.chunk),
+		NFiles:   n,
+		Pool:     len(m.pool),
+		Err:      m.err() != nil,
+	}
+}
+
+// VerifFiles returns the run files currently registered with m.
+func (m *Morass) VerifFiles() []*os.File {
+	m.filesLock.Lock()
+	defer m.filesLock.Unlock()
+	fs := make([]*os.File, len(m.files))
+	for i, f := range m.files {
+		fs[i] = f.file
+	}
+	return fs
+}
+
+// VerifDir returns the temporary directory used by m.
+func (m *Morass) VerifDir() string { return m.dir }
